@@ -44,38 +44,48 @@ theorem np_inLoop {α : Type} (site : String) (eq : α → α → Bool) (left : 
     · rfl
     · exact ih
 
-theorem np_anyLoop (f : FV → Outcome Bool) (hf : ∀ v, NP (f v)) : ∀ l, NP (anyLoop f l) := by
+theorem np_anyLoop (f : Env → Outcome (Bool × Env)) (n : Name) (hf : ∀ e, NP (f e)) : ∀ l e, NP (anyLoop f n l e) := by
   intro l
   induction l with
-  | nil => rfl
+  | nil => intro e; rfl
   | cons v rest ih =>
+    intro e
     simp only [anyLoop]
-    apply np_bind (hf v)
-    intro a; split
+    apply np_bind (hf _)
+    intro a; obtain ⟨b, e1⟩ := a
+    dsimp only
+    split
     · rfl
-    · exact ih
+    · exact ih e1
 
-theorem np_allLoop (f : FV → Outcome Bool) (hf : ∀ v, NP (f v)) : ∀ l, NP (allLoop f l) := by
+theorem np_allLoop (f : Env → Outcome (Bool × Env)) (n : Name) (hf : ∀ e, NP (f e)) : ∀ l e, NP (allLoop f n l e) := by
   intro l
   induction l with
-  | nil => rfl
+  | nil => intro e; rfl
   | cons v rest ih =>
+    intro e
     simp only [allLoop]
-    apply np_bind (hf v)
-    intro a; split
-    · exact ih
+    apply np_bind (hf _)
+    intro a; obtain ⟨b, e1⟩ := a
+    dsimp only
+    split
+    · exact ih e1
     · rfl
 
-theorem np_countLoop (f : Row → Outcome Bool) (hf : ∀ r, NP (f r)) : ∀ l, NP (countLoop f l) := by
+theorem np_filterKids (f : Row → Outcome Bool) (hf : ∀ r, NP (f r)) : ∀ l i, NP (filterKids f i l) := by
   intro l
   induction l with
-  | nil => rfl
+  | nil => intro i; rfl
   | cons v rest ih =>
-    simp only [countLoop]
+    intro i
+    simp only [filterKids]
     apply np_bind (hf v)
     intro a
-    apply np_bind ih
-    intro n; rfl
+    apply np_bind (ih (i + 1))
+    intro m; rfl
+
+theorem np_fst {α : Type} {x : Outcome (α × Env)} (h : NP x) : NP (x >>= fun p => Outcome.ok p.1) := by
+  exact np_bind h (fun _ => rfl)
 
 end StorageModel.C10
 
@@ -98,7 +108,19 @@ theorem np_guarded_deref' {α β : Type} (site : String) (r : Option α) (f : α
   | none => simpa using hz
   | some a => simpa [deref] using hf a
 
-/-- **evaluation of a well-typed node never panics**, for every dataset and cursor kind -/
+theorem np_ret_binCompare {α : Type} (site : String) (lt eq : α → α → Bool) (op : BinOp) (l r : Option α) (e : Env) :
+    NP (binCompare site lt eq op l r >>= fun v => Outcome.ok (v, e)) :=
+  np_bind (np_binCompare ..) (fun _ => rfl)
+
+theorem np_ret_betweenEval {α : Type} (site : String) (lt : α → α → Bool) (l lo hi : Option α) (e : Env) :
+    NP (betweenEval site lt l lo hi >>= fun v => Outcome.ok (v, e)) :=
+  np_bind (np_betweenEval ..) (fun _ => rfl)
+
+theorem np_ret_inLoop {α : Type} (site : String) (eq : α → α → Bool) (left : Option α) (l : List (Option α)) (e : Env) :
+    NP (inLoop site eq left l >>= fun v => Outcome.ok (v, e)) :=
+  np_bind (np_inLoop ..) (fun _ => rfl)
+
+/-- **evaluation of a well-typed node never panics**, for every dataset, cursor state and cursor kind -/
 theorem eval_np_aux (t : T) :
     ((okBool t = true → ∀ sk e, NP (evalBool sk e t)) ∧
     (okStr t = true → ∀ sk e, NP (evalString sk e t)) ∧
@@ -108,20 +130,16 @@ theorem eval_np_aux (t : T) :
     (∀ op l r, t = .binStr op l r → okStr r = true → ∀ sk e, NP (evalString sk e r)) := by
   induction t with
   | boolC b =>
-    refine ⟨⟨?_, ?_, ?_, ?_, ?_⟩, fun _ _ _ ht => by cases ht⟩ <;> intro h sk e <;> first | rfl | simp [okStr, okInt, okFlt, okDt] at h
+    refine ⟨⟨?_, ?_, ?_, ?_, ?_⟩, fun _ _ _ ht => by cases ht⟩ <;> intro h sk e <;>
+      first | rfl | simp [okStr, okInt, okFlt, okDt] at h
   | lit l =>
     refine ⟨⟨?_, ?_, ?_, ?_, ?_⟩, fun _ _ _ ht => by cases ht⟩ <;> intro h sk e <;> cases l <;>
       first | rfl | simp [okBool, okStr, okInt, okFlt, okDt] at h
-  | nullC =>
-    refine ⟨⟨?_, ?_, ?_, ?_, ?_⟩, fun _ _ _ ht => by cases ht⟩ <;> intro h <;> simp [okBool, okStr, okInt, okFlt, okDt] at h
-  | strArr l =>
-    refine ⟨⟨?_, ?_, ?_, ?_, ?_⟩, fun _ _ _ ht => by cases ht⟩ <;> intro h <;> simp [okBool, okStr, okInt, okFlt, okDt] at h
-  | intArr l =>
-    refine ⟨⟨?_, ?_, ?_, ?_, ?_⟩, fun _ _ _ ht => by cases ht⟩ <;> intro h <;> simp [okBool, okStr, okInt, okFlt, okDt] at h
-  | fltArr l =>
-    refine ⟨⟨?_, ?_, ?_, ?_, ?_⟩, fun _ _ _ ht => by cases ht⟩ <;> intro h <;> simp [okBool, okStr, okInt, okFlt, okDt] at h
-  | dtArr l =>
-    refine ⟨⟨?_, ?_, ?_, ?_, ?_⟩, fun _ _ _ ht => by cases ht⟩ <;> intro h <;> simp [okBool, okStr, okInt, okFlt, okDt] at h
+  | nullC => refine ⟨⟨?_, ?_, ?_, ?_, ?_⟩, fun _ _ _ ht => by cases ht⟩ <;> intro h <;> simp [okBool, okStr, okInt, okFlt, okDt] at h
+  | strArr l => refine ⟨⟨?_, ?_, ?_, ?_, ?_⟩, fun _ _ _ ht => by cases ht⟩ <;> intro h <;> simp [okBool, okStr, okInt, okFlt, okDt] at h
+  | intArr l => refine ⟨⟨?_, ?_, ?_, ?_, ?_⟩, fun _ _ _ ht => by cases ht⟩ <;> intro h <;> simp [okBool, okStr, okInt, okFlt, okDt] at h
+  | fltArr l => refine ⟨⟨?_, ?_, ?_, ?_, ?_⟩, fun _ _ _ ht => by cases ht⟩ <;> intro h <;> simp [okBool, okStr, okInt, okFlt, okDt] at h
+  | dtArr l => refine ⟨⟨?_, ?_, ?_, ?_, ?_⟩, fun _ _ _ ht => by cases ht⟩ <;> intro h <;> simp [okBool, okStr, okInt, okFlt, okDt] at h
   | symT k n =>
     refine ⟨⟨?_, ?_, ?_, ?_, ?_⟩, fun _ _ _ ht => by cases ht⟩ <;> intro h sk e
     · cases k <;> simp [okBool] at h <;> simp only [evalBool] <;>
@@ -134,12 +152,9 @@ theorem eval_np_aux (t : T) :
     · cases k <;> simp [okInt] at h <;> simp [evalInt64, NP, Outcome.isPanic]
     · cases k <;> simp [okFlt] at h <;> simp [evalFloat64, NP, Outcome.isPanic]
     · cases k <;> simp [okDt] at h <;> simp [evalDatetime, NP, Outcome.isPanic]
-  | setFnT f s _ =>
-    refine ⟨⟨?_, ?_, ?_, ?_, ?_⟩, fun _ _ _ ht => by cases ht⟩ <;> intro h <;> simp [okBool, okStr, okInt, okFlt, okDt] at h
-  | subQueryT s q _ _ =>
-    refine ⟨⟨?_, ?_, ?_, ?_, ?_⟩, fun _ _ _ ht => by cases ht⟩ <;> intro h <;> simp [okBool, okStr, okInt, okFlt, okDt] at h
+  | setFnT f s _ => refine ⟨⟨?_, ?_, ?_, ?_, ?_⟩, fun _ _ _ ht => by cases ht⟩ <;> intro h <;> simp [okBool, okStr, okInt, okFlt, okDt] at h
+  | subQueryT s q _ _ => refine ⟨⟨?_, ?_, ?_, ?_, ?_⟩, fun _ _ _ ht => by cases ht⟩ <;> intro h <;> simp [okBool, okStr, okInt, okFlt, okDt] at h
   | i2f w ih =>
-    have ih6 := ih.2
     have ih := ih.1
     refine ⟨⟨?_, ?_, ?_, ?_, ?_⟩, fun _ _ _ ht => by cases ht⟩ <;> intro h sk e
     · simp [okBool] at h
@@ -148,18 +163,17 @@ theorem eval_np_aux (t : T) :
     · simp only [okFlt] at h
       simp only [evalFloat64]
       apply np_bind (ih.2.2.1 h sk e)
-      intro r
+      intro p; obtain ⟨r, e1⟩ := p
       exact np_guarded_deref' _ r _ _ (fun _ => rfl) rfl
     · simp [okDt] at h
   | strFunc x ih =>
-    have ih6 := ih.2
     have ih := ih.1
     refine ⟨⟨?_, ?_, ?_, ?_, ?_⟩, fun _ _ _ ht => by cases ht⟩ <;> intro h sk e
     · simp [okBool] at h
     · simp only [okStr] at h
       simp only [evalString]
       apply np_bind (ih.2.1 h sk e)
-      intro r
+      intro p; obtain ⟨r, e1⟩ := p
       exact np_guarded_deref' _ r _ _ (fun _ => rfl) rfl
     · simp [okInt] at h
     · simp [okFlt] at h
@@ -172,33 +186,34 @@ theorem eval_np_aux (t : T) :
     · simp [okFlt] at h
     · simp [okDt] at h
   | countSetQ s q _ ihq =>
-    have ihq6 := ihq.2
     have ihq := ihq.1
+    have hk : okBool q = true → ∀ sk (e : Env), NP (filterKids (fun r => do let (b, _) ← evalBool sk ⟨r, []⟩ q; Outcome.ok b) 0 (e.row.kids s.symbolName)) := by
+      intro hq sk e
+      exact np_filterKids _ (fun r => np_bind (ihq.1 hq sk _) (fun _ => rfl)) _ _
     refine ⟨⟨?_, ?_, ?_, ?_, ?_⟩, fun _ _ _ ht => by cases ht⟩ <;> intro h sk e
     · simp [okBool] at h
     · simp only [okStr] at h
       simp only [evalString]
-      apply np_bind (np_countLoop _ (fun r => ihq.1 h sk _) _)
-      intro n; simp [deref, NP, Outcome.isPanic]
+      apply np_bind (hk h sk e)
+      intro vs; simp [deref, NP, Outcome.isPanic]
     · simp only [okInt] at h
       simp only [evalInt64]
-      apply np_bind (np_countLoop _ (fun r => ihq.1 h sk _) _)
-      intro n; rfl
+      apply np_bind (hk h sk e)
+      intro vs; rfl
     · simp [okFlt] at h
     · simp [okDt] at h
   | isEmptySet s _ =>
-    refine ⟨⟨?_, ?_, ?_, ?_, ?_⟩, fun _ _ _ ht => by cases ht⟩ <;> intro h sk e <;> first | rfl | simp [okStr, okInt, okFlt, okDt] at h
+    refine ⟨⟨?_, ?_, ?_, ?_, ?_⟩, fun _ _ _ ht => by cases ht⟩ <;> intro h sk e <;>
+      first | rfl | simp [okStr, okInt, okFlt, okDt] at h
   | isEmptySetQ s q _ ihq =>
-    have ihq6 := ihq.2
     have ihq := ihq.1
     refine ⟨⟨?_, ?_, ?_, ?_, ?_⟩, fun _ _ _ ht => by cases ht⟩ <;> intro h sk e
     · simp only [okBool] at h
       simp only [evalBool]
-      apply np_bind (np_countLoop _ (fun r => ihq.1 h sk _) _)
-      intro n; rfl
+      apply np_bind (np_filterKids _ (fun r => np_bind (ihq.1 h sk _) (fun _ => rfl)) _ _)
+      intro vs; rfl
     all_goals simp [okStr, okInt, okFlt, okDt] at h
   | notE x ih =>
-    have ih6 := ih.2
     have ih := ih.1
     refine ⟨⟨?_, ?_, ?_, ?_, ?_⟩, fun _ _ _ ht => by cases ht⟩ <;> intro h sk e
     · simp only [okBool] at h
@@ -206,31 +221,27 @@ theorem eval_np_aux (t : T) :
       exact np_bind (ih.1 h sk e) (fun _ => rfl)
     all_goals simp [okStr, okInt, okFlt, okDt] at h
   | andE l r ihl ihr =>
-    have ihl6 := ihl.2
     have ihl := ihl.1
-    have ihr6 := ihr.2
     have ihr := ihr.1
     refine ⟨⟨?_, ?_, ?_, ?_, ?_⟩, fun _ _ _ ht => by cases ht⟩ <;> intro h sk e
     · simp only [okBool, Bool.and_eq_true] at h
       simp only [evalBool]
       apply np_bind (ihl.1 h.1 sk e)
-      intro a; exact np_if rfl (ihr.1 h.2 sk e)
+      intro p; obtain ⟨a, e1⟩ := p
+      exact np_if rfl (ihr.1 h.2 sk e1)
     all_goals simp [okStr, okInt, okFlt, okDt] at h
   | orE l r ihl ihr =>
-    have ihl6 := ihl.2
     have ihl := ihl.1
-    have ihr6 := ihr.2
     have ihr := ihr.1
     refine ⟨⟨?_, ?_, ?_, ?_, ?_⟩, fun _ _ _ ht => by cases ht⟩ <;> intro h sk e
     · simp only [okBool, Bool.and_eq_true] at h
       simp only [evalBool]
       apply np_bind (ihl.1 h.1 sk e)
-      intro a; exact np_if rfl (ihr.1 h.2 sk e)
+      intro p; obtain ⟨a, e1⟩ := p
+      exact np_if rfl (ihr.1 h.2 sk e1)
     all_goals simp [okStr, okInt, okFlt, okDt] at h
   | binBool op l r ihl ihr =>
-    have ihl6 := ihl.2
     have ihl := ihl.1
-    have ihr6 := ihr.2
     have ihr := ihr.1
     refine ⟨⟨?_, ?_, ?_, ?_, ?_⟩, fun _ _ _ ht => by cases ht⟩ <;> intro h sk e
     · simp only [okBool, Bool.and_eq_true] at h
@@ -238,61 +249,57 @@ theorem eval_np_aux (t : T) :
       split
       · split <;> rfl
       · apply np_bind (ihl.1 h.1 sk e)
-        intro a
-        apply np_bind (ihr.1 h.2 sk e)
-        intro b; split <;> rfl
+        intro p; obtain ⟨a, e1⟩ := p
+        apply np_bind (ihr.1 h.2 sk e1)
+        intro p2; obtain ⟨b, e2⟩ := p2
+        dsimp only; split <;> rfl
     all_goals simp [okStr, okInt, okFlt, okDt] at h
   | binDt op l r ihl ihr =>
-    have ihl6 := ihl.2
     have ihl := ihl.1
-    have ihr6 := ihr.2
     have ihr := ihr.1
     refine ⟨⟨?_, ?_, ?_, ?_, ?_⟩, fun _ _ _ ht => by cases ht⟩ <;> intro h sk e
     · simp only [okBool, Bool.and_eq_true] at h
       simp only [evalBool]
       apply np_bind (ihl.2.2.2.2 h.1 sk e)
-      intro a
-      apply np_bind (ihr.2.2.2.2 h.2 sk e)
-      intro b; exact np_binCompare ..
+      intro p; obtain ⟨a, e1⟩ := p
+      apply np_bind (ihr.2.2.2.2 h.2 sk e1)
+      intro p2; obtain ⟨b, e2⟩ := p2
+      exact np_ret_binCompare ..
     all_goals simp [okStr, okInt, okFlt, okDt] at h
   | binFlt op l r ihl ihr =>
-    have ihl6 := ihl.2
     have ihl := ihl.1
-    have ihr6 := ihr.2
     have ihr := ihr.1
     refine ⟨⟨?_, ?_, ?_, ?_, ?_⟩, fun _ _ _ ht => by cases ht⟩ <;> intro h sk e
     · simp only [okBool, Bool.and_eq_true] at h
       simp only [evalBool]
       apply np_bind (ihl.2.2.2.1 h.1 sk e)
-      intro a
-      apply np_bind (ihr.2.2.2.1 h.2 sk e)
-      intro b; exact np_binCompare ..
+      intro p; obtain ⟨a, e1⟩ := p
+      apply np_bind (ihr.2.2.2.1 h.2 sk e1)
+      intro p2; obtain ⟨b, e2⟩ := p2
+      exact np_ret_binCompare ..
     all_goals simp [okStr, okInt, okFlt, okDt] at h
   | binInt op l r ihl ihr =>
-    have ihl6 := ihl.2
     have ihl := ihl.1
-    have ihr6 := ihr.2
     have ihr := ihr.1
     refine ⟨⟨?_, ?_, ?_, ?_, ?_⟩, fun _ _ _ ht => by cases ht⟩ <;> intro h sk e
     · simp only [okBool, Bool.and_eq_true] at h
       simp only [evalBool]
       apply np_bind (ihl.2.2.1 h.1 sk e)
-      intro a
-      apply np_bind (ihr.2.2.1 h.2 sk e)
-      intro b; exact np_binCompare ..
+      intro p; obtain ⟨a, e1⟩ := p
+      apply np_bind (ihr.2.2.1 h.2 sk e1)
+      intro p2; obtain ⟨b, e2⟩ := p2
+      exact np_ret_binCompare ..
     all_goals simp [okStr, okInt, okFlt, okDt] at h
   | binStr op l r ihl ihr =>
-    have ihl6 := ihl.2
     have ihl := ihl.1
-    have ihr6 := ihr.2
     have ihr := ihr.1
     refine ⟨⟨?_, ?_, ?_, ?_, ?_⟩, fun _ _ _ ht hr sk e => by cases ht; exact ihr.2.1 hr sk e⟩ <;> intro h sk e
     · simp only [okBool, Bool.and_eq_true] at h
       simp only [evalBool]
       apply np_bind (ihl.2.1 h.1 sk e)
-      intro a
-      apply np_bind (ihr.2.1 h.2 sk e)
-      intro b
+      intro p; obtain ⟨a, e1⟩ := p
+      apply np_bind (ihr.2.1 h.2 sk e1)
+      intro p2; obtain ⟨b, e2⟩ := p2
       cases a <;> cases b <;> simp only [Option.isNone_none, Option.isNone_some, Bool.or_true, Bool.true_or,
         Bool.or_self, Bool.false_eq_true, if_true, if_false, deref, Outcome.bind_ok] <;>
         (repeat' split) <;> rfl
@@ -302,95 +309,81 @@ theorem eval_np_aux (t : T) :
     · simp only [evalBool]; split <;> rfl
     all_goals simp [okStr, okInt, okFlt, okDt] at h
   | intBtw l lo hi ihl ihlo ihhi =>
-    have ihl6 := ihl.2
     have ihl := ihl.1
-    have ihlo6 := ihlo.2
     have ihlo := ihlo.1
-    have ihhi6 := ihhi.2
     have ihhi := ihhi.1
     refine ⟨⟨?_, ?_, ?_, ?_, ?_⟩, fun _ _ _ ht => by cases ht⟩ <;> intro h sk e
     · simp only [okBool, Bool.and_eq_true] at h
       simp only [evalBool]
-      apply np_bind (ihl.2.2.1 h.1.1 sk e); intro a
+      apply np_bind (ihl.2.2.1 h.1.1 sk e); intro p; obtain ⟨a, e1⟩ := p
       apply np_if rfl
-      apply np_bind (ihlo.2.2.1 h.1.2 sk e); intro b
+      apply np_bind (ihlo.2.2.1 h.1.2 sk e1); intro p2; obtain ⟨b, e2⟩ := p2
       apply np_if rfl
-      apply np_bind (ihhi.2.2.1 h.2 sk e); intro c
-      exact np_betweenEval ..
+      apply np_bind (ihhi.2.2.1 h.2 sk e2); intro p3; obtain ⟨c, e3⟩ := p3
+      exact np_ret_betweenEval ..
     all_goals simp [okStr, okInt, okFlt, okDt] at h
   | fltBtw l lo hi ihl ihlo ihhi =>
-    have ihl6 := ihl.2
     have ihl := ihl.1
-    have ihlo6 := ihlo.2
     have ihlo := ihlo.1
-    have ihhi6 := ihhi.2
     have ihhi := ihhi.1
     refine ⟨⟨?_, ?_, ?_, ?_, ?_⟩, fun _ _ _ ht => by cases ht⟩ <;> intro h sk e
     · simp only [okBool, Bool.and_eq_true] at h
       simp only [evalBool]
-      apply np_bind (ihl.2.2.2.1 h.1.1 sk e); intro a
+      apply np_bind (ihl.2.2.2.1 h.1.1 sk e); intro p; obtain ⟨a, e1⟩ := p
       apply np_if rfl
-      apply np_bind (ihlo.2.2.2.1 h.1.2 sk e); intro b
+      apply np_bind (ihlo.2.2.2.1 h.1.2 sk e1); intro p2; obtain ⟨b, e2⟩ := p2
       apply np_if rfl
-      apply np_bind (ihhi.2.2.2.1 h.2 sk e); intro c
-      exact np_betweenEval ..
+      apply np_bind (ihhi.2.2.2.1 h.2 sk e2); intro p3; obtain ⟨c, e3⟩ := p3
+      exact np_ret_betweenEval ..
     all_goals simp [okStr, okInt, okFlt, okDt] at h
   | dtBtw l lo hi ihl ihlo ihhi =>
-    have ihl6 := ihl.2
     have ihl := ihl.1
-    have ihlo6 := ihlo.2
     have ihlo := ihlo.1
-    have ihhi6 := ihhi.2
     have ihhi := ihhi.1
     refine ⟨⟨?_, ?_, ?_, ?_, ?_⟩, fun _ _ _ ht => by cases ht⟩ <;> intro h sk e
     · simp only [okBool, Bool.and_eq_true] at h
       simp only [evalBool]
-      apply np_bind (ihl.2.2.2.2 h.1.1 sk e); intro a
+      apply np_bind (ihl.2.2.2.2 h.1.1 sk e); intro p; obtain ⟨a, e1⟩ := p
       apply np_if rfl
-      apply np_bind (ihlo.2.2.2.2 h.1.2 sk e); intro b
+      apply np_bind (ihlo.2.2.2.2 h.1.2 sk e1); intro p2; obtain ⟨b, e2⟩ := p2
       apply np_if rfl
-      apply np_bind (ihhi.2.2.2.2 h.2 sk e); intro c
-      exact np_betweenEval ..
+      apply np_bind (ihhi.2.2.2.2 h.2 sk e2); intro p3; obtain ⟨c, e3⟩ := p3
+      exact np_ret_betweenEval ..
     all_goals simp [okStr, okInt, okFlt, okDt] at h
   | inStr l arr ihl =>
-    have ihl6 := ihl.2
     have ihl := ihl.1
     refine ⟨⟨?_, ?_, ?_, ?_, ?_⟩, fun _ _ _ ht => by cases ht⟩ <;> intro h sk e
     · simp only [okBool] at h
       simp only [evalBool]
-      exact np_bind (ihl.2.1 h sk e) (fun a => np_inLoop ..)
+      exact np_bind (ihl.2.1 h sk e) (fun p => np_ret_inLoop ..)
     all_goals simp [okStr, okInt, okFlt, okDt] at h
   | inInt l arr ihl =>
-    have ihl6 := ihl.2
     have ihl := ihl.1
     refine ⟨⟨?_, ?_, ?_, ?_, ?_⟩, fun _ _ _ ht => by cases ht⟩ <;> intro h sk e
     · simp only [okBool] at h
       simp only [evalBool]
-      exact np_bind (ihl.2.2.1 h sk e) (fun a => np_inLoop ..)
+      exact np_bind (ihl.2.2.1 h sk e) (fun p => np_ret_inLoop ..)
     all_goals simp [okStr, okInt, okFlt, okDt] at h
   | inFlt l arr ihl =>
-    have ihl6 := ihl.2
     have ihl := ihl.1
     refine ⟨⟨?_, ?_, ?_, ?_, ?_⟩, fun _ _ _ ht => by cases ht⟩ <;> intro h sk e
     · simp only [okBool] at h
       simp only [evalBool]
-      exact np_bind (ihl.2.2.2.1 h sk e) (fun a => np_inLoop ..)
+      exact np_bind (ihl.2.2.2.1 h sk e) (fun p => np_ret_inLoop ..)
     all_goals simp [okStr, okInt, okFlt, okDt] at h
   | inDt l arr ihl =>
-    have ihl6 := ihl.2
     have ihl := ihl.1
     refine ⟨⟨?_, ?_, ?_, ?_, ?_⟩, fun _ _ _ ht => by cases ht⟩ <;> intro h sk e
     · simp only [okBool] at h
       simp only [evalBool]
-      exact np_bind (ihl.2.2.2.2 h sk e) (fun a => np_inLoop ..)
+      exact np_bind (ihl.2.2.2.2 h sk e) (fun p => np_ret_inLoop ..)
     all_goals simp [okStr, okInt, okFlt, okDt] at h
   | allOf n p ihp =>
-    have ihp6 := ihp.2
     have ihp := ihp.1
     refine ⟨⟨?_, ?_, ?_, ?_, ?_⟩, fun _ _ _ ht => by cases ht⟩ <;> intro h sk e
     · simp only [okBool] at h
       simp only [evalBool]
-      exact np_allLoop _ (fun v => ihp.1 h sk _) _
+      exact np_allLoop _ n (fun e' => ihp.1 h sk e') _ _
     all_goals simp [okStr, okInt, okFlt, okDt] at h
   | anyOf n p seek ihp =>
     have ihp6 := ihp.2
@@ -400,7 +393,7 @@ theorem eval_np_aux (t : T) :
       | false =>
         simp only [okBool] at h
         simp only [evalBool, Bool.false_and, Bool.false_eq_true, if_false]
-        exact np_anyLoop _ (fun v => ihp.1 h sk _) _
+        exact np_anyLoop _ n (fun e' => ihp.1 h sk e') _ _
       | true =>
         cases p with
         | binStr op l r =>
@@ -408,20 +401,18 @@ theorem eval_np_aux (t : T) :
           have hb : okBool (.binStr op l r) = true := by simp [okBool, h.1, h.2]
           simp only [evalBool, Bool.true_and]
           split
-          · have hr : NP (evalString sk e r) := by
-              exact ihp6 op l r rfl h.2 sk e
-            apply np_bind hr
-            intro rr
+          · apply np_bind (ihp6 op l r rfl h.2 sk _)
+            intro pr; obtain ⟨rr, e1⟩ := pr
+            dsimp only
             apply np_guarded_deref _ rr _ _ _ rfl
             intro v
             split
             · rfl
             · exact ihp.1 hb sk _
-          · exact np_anyLoop _ (fun v => ihp.1 hb sk _) _
+          · exact np_anyLoop _ n (fun e' => ihp.1 hb sk e') _ _
         | _ => simp [okBool] at h
     all_goals simp [okStr, okInt, okFlt, okDt] at h
   | query p sort skip limit ihp =>
-    have ihp6 := ihp.2
     have ihp := ihp.1
     refine ⟨⟨?_, ?_, ?_, ?_, ?_⟩, fun _ _ _ ht => by cases ht⟩ <;> intro h sk e
     · simp only [okBool] at h
@@ -435,5 +426,13 @@ theorem eval_np (t : T) :
     (okInt t = true → ∀ sk e, NP (evalInt64 sk e t)) ∧
     (okFlt t = true → ∀ sk e, NP (evalFloat64 sk e t)) ∧
     (okDt t = true → ∀ sk e, NP (evalDatetime sk e t)) := (eval_np_aux t).1
+
+theorem evalRow_np (t : T) (h : okBool t = true) (sk : Bool) (row : Row) : NP (evalRow sk t row) := by
+  have := (eval_np t).1 h sk ⟨row, []⟩
+  unfold evalRow
+  cases hx : evalBool sk ⟨row, []⟩ t with
+  | ok p => rfl
+  | err e => rfl
+  | panic s => rw [hx] at this; exact absurd this (by simp [NP, Outcome.isPanic])
 
 end StorageModel.C10
